@@ -4,8 +4,8 @@
 From Coq Require Import List ZArith Lia Bool Arith Permutation String.
 From RG.Base Require Import Outcome GoInt GoSlice.
 From RG.Regex Require Import Utf8.
-From RG.Engine Require Import TruncateSpec RenderSpec RenderLoop.
-From RGW Require Import Gen_C03 Inst_Render Gen_C03Loop Def_RenderLoop Inst_RenderLoop.
+From RG.Engine Require Import TruncateSpec RenderSpec RenderLoop RenderPre.
+From RGW Require Import Gen_C03 Inst_Render Gen_C03Loop Def_RenderLoop Inst_RenderLoop Gen_C03Pre Def_RenderPre Inst_RenderPre.
 Import ListNotations.
 Local Open Scope Z_scope.
 
@@ -94,10 +94,51 @@ Theorem C03_translated_render_is_model :
 Proof. exact gen_render_msg_is_render_msg. Qed.
 Print Assumptions C03_translated_render_is_model.
 
+(* the STABLE sort by name length followed by the first prefix hit is the longest-name match with ties resolved in favour
+   of the EARLIER capture: for ALL capture lists -- also when a name occurs twice (a regexp may name two groups alike) *)
+Theorem C03_stable_sort_first_of_name :
+  forall (C : Type) (cname : C -> bytes) caps rest, first_prefix cname (sort_len cname caps) rest = longest cname caps rest.
+Proof. exact (@first_prefix_stable_is_longest). Qed.
+Print Assumptions C03_stable_sort_first_of_name.
+
+Theorem C03_longest_is_first_of_its_name :
+  forall (C : Type) (cname : C -> bytes) caps rest c, longest cname caps rest = Some c ->
+  forall pre d post, caps = pre ++ d :: post -> cname d = cname c -> (forall x, In x pre -> cname x <> cname c) -> c = d.
+Proof. exact (@longest_first_of_name). Qed.
+
+(* the statements of renderMessage IN FRONT OF the loop, as translated from the source on this run (go2coq c03pre), leave
+   exactly the captures that hold a node -- no nil interface (a capture bound to no node), no typed nil pointer --, longest
+   name first, captures of equal name length in their original order. sort.Slice is an abstract operation about which
+   nothing is assumed: were it the sort the source calls, this would not be provable. reflect's IsNil is never asked about a
+   nil interface (the result is Ok). *)
+Theorem C03_translated_capture_preparation_is_model :
+  forall (N : Type) sort_Slice (caps : list (bytes * nval N)),
+  gen_renderMessage_captures v_is_nil_interface v_reflect_IsNil v_IsEmptyNodeSlice sort_Slice (@stable_sort (bytes * nval N)) caps
+  = Ok (live_sorted caps).
+Proof. intros N. exact (@gen_captures_is_live_sorted N). Qed.
+Print Assumptions C03_translated_capture_preparation_is_model.
+
+(* renderMessage as regenerated -- capture preparation + scanning loop -- is the interpolation specification on the live
+   captures, for all capture lists (names may repeat), templates, TruncateLen values *)
+Theorem C03_translated_render_full_is_spec :
+  forall trunc caps whole_text whole_fixable msg,
+  gen_render_msg_full trunc caps whole_text whole_fixable msg = Ok (render_msg_spec trunc (live_ccaps caps) whole_text whole_fixable msg).
+Proof. exact gen_render_msg_full_is_spec. Qed.
+Print Assumptions C03_translated_render_full_is_spec.
+
 (* the statements of runner.go / ir_loader.go that the report model mirrors are the ones in the source today *)
 Theorem C03_report_path_facts : forallb snd gen_c03_facts = true /\ (25 <= List.length gen_c03_facts)%nat.
 Proof. exact (conj c03_facts_hold c03_facts_count). Qed.
 Print Assumptions C03_report_path_facts.
+
+(* a name that occurs twice: `$dd` is the FIRST capture named dd (14 captures, the second `dd` at position 9) *)
+Example c03_first_of_name :
+  let nm (s : list Z) := s in
+  let caps := map (fun p => (fst p, VNode (snd p, false)))
+    [([101;101;101],[49]); ([100;100],[50]); ([103;103],[51]); ([104],[52]); ([105;105],[53]); ([106;106;106],[54]); ([107;107],[55]);
+     ([108],[56]); ([109;109;109],[57]); ([100;100],[65]); ([111;111],[66]); ([112],[67]); ([113;113;113],[68]); ([114;114],[69])] in
+  gen_render_msg_full None caps [] false [36;100;100] = Ok [50].
+Proof. vm_compute. reflexivity. Qed.
 
 (* non-vacuity *)
 Example c03_longest_wins :
